@@ -37,7 +37,8 @@ template <> const char* Nm<double>::n = "double";
 static void fail (const std::string& what, const std::string& cls, const char* ty, double ratio, double c, const std::string& in)
 {
     ++failures;
-    if (failures <= 40)
+    static std::map<std::string, int> printed;   // at most 3 lines per (check, element type): one noisy check must not hide another
+    if (++printed[what + ":" + ty] <= 3)
         printf ("RESIDUE-FAIL %s:%s:%s err/eps=%.4g > %.4g in=%s\n", what.c_str (), cls.c_str (), ty, ratio, c, in.c_str ());
 }
 // record error `err` measured in units of eps against the constant c
